@@ -307,6 +307,11 @@ func reachesFunc(w *world.World, f *ssa.Function, target string) bool {
 // allocation / call result a value comes from.
 func origin(v ssa.Value) ssa.Value {
 	for i := 0; i < 20; i++ {
+		// a value carried in a field of a local parameter struct is the value stored there
+		if f := world.Forward(v); f != v {
+			v = f
+			continue
+		}
 		switch x := v.(type) {
 		case *ssa.UnOp:
 			if x.Op == token.MUL {
@@ -344,6 +349,10 @@ func originsThroughPhi(v ssa.Value) map[ssa.Value]bool {
 			return
 		}
 		seen[v] = true
+		if f := world.Forward(v); f != v {
+			walk(f)
+			return
+		}
 		if p, ok := v.(*ssa.Phi); ok {
 			for _, e := range p.Edges {
 				walk(e)
@@ -695,7 +704,7 @@ func ruleD2(w *world.World, r *report.RuleResult) {
 		if world.ErrNilEdge(b, isHV) == si {
 			f |= HOK
 		}
-		if world.CondValue(iff) == ssa.Value(d.replay) {
+		if world.Forward(world.CondValue(iff)) == ssa.Value(d.replay) {
 			if si == 0 {
 				f |= DONE
 			} else {
@@ -780,7 +789,7 @@ func ruleD2(w *world.World, r *report.RuleResult) {
 		}
 		// (d) payload
 		payload, dbArg, dbCtx := logOperands(w, lc, 0)
-		if payload == ssa.Value(d.message) && d.decode != nil && len(d.decode.Call.Args) == 1 && d.decode.Call.Args[0] == ssa.Value(d.message) {
+		if world.Forward(payload) == ssa.Value(d.message) && d.decode != nil && len(d.decode.Call.Args) == 1 && d.decode.Call.Args[0] == ssa.Value(d.message) {
 			r.OK(fname+"|d:payload-is-request"+sfx, pos, "logged bytes are the dispatcher's message parameter, the same bytes that were decoded and executed")
 		} else {
 			r.Fail(fname+"|d:payload-is-request"+sfx, pos, "the bytes appended to the AOF are not the received request message that was decoded and executed")
